@@ -281,10 +281,10 @@ LABEL(tstrcmp)  // tiger strcmp -- like C strcmp
      LOAD(R6,0,R2)		// r6 has size of b
      CMP(R5,R6)
      BLR(tstdlib_label_b_was_longer)
-     ADD(R3,R5,R0)	// r3 = r5
+     ADD(R3,R6,R0)	// r3 = r6
      BR(tstdlib_label_got_min)
      LABEL(tstdlib_label_b_was_longer)
-     ADD(R3,R6,R0)	// r3 = r6
+     ADD(R3,R5,R0)	// r3 = r5
      LABEL(tstdlib_label_got_min)  // now r3 is min. size
 // r1 = address of 1st "real" char of a,
      INC(R1,1)
